@@ -39,7 +39,8 @@ Edits == { CLine(20, <<PS(<<66>>), SEnd>>),        \* replace
            CDirect(<<SNew>>) }
         \cup (IF WithRenum THEN { CDirect(<<[k |-> "renum", new |-> 100, old |-> 0, step |-> 10, args |-> "100"]>>),
                                   CDirect(<<[k |-> "renum", new |-> 10, old |-> 0, step |-> 10, args |-> ""]>>) } ELSE {})
-Directs == { CDirect(<<SLet(A, LI(7))>>), CDirect(<<PA>>), CDirect(<<SRun(-1)>>) }
+\* (a direct statement that is refused at compile time leaves nothing behind either)
+Directs == { CDirect(<<SLet(A, LI(7))>>), CDirect(<<PA>>), CDirect(<<SRun(-1)>>), CDirect(<<SGoto(500)>>) }
 Endings == { CDirect(<<SRun(-1)>>), CDirect(<<SRun(20)>>), CDirect(<<SCont>>), CDirect(<<SReturn>>),
              CDirect(<<SNext(<<>>)>>), CDirect(<<SGoto(20)>>), CDirect(<<SRun(100)>>) }
 
